@@ -66,11 +66,11 @@ def ess_limit(st, beta_prev, target):
     return 1.0
 
 
-def fill(d, batches, beta_cur, it):
+def fill(d, batches, beta_cur, it, ldtype=float):
     st = StateManager(d)
     for (beta, logz, u, logl) in batches:
         n = len(logl)
-        st.update_current({"u": u, "x": u.copy(), "logl": np.asarray(logl, float), "beta": float(beta), "logz": float(logz),
+        st.update_current({"u": u, "x": u.copy(), "logl": np.asarray(logl, ldtype), "beta": float(beta), "logz": float(logz),
                            "iter": it, "calls": 0, "ess": 1.0, "assignments": np.zeros(n, dtype=int)})
         st.commit_current_to_history()
     st.set_current("beta", float(beta_cur))
@@ -115,6 +115,55 @@ def check_step(st, rw, beta_prev, dynamic, what, runner=None):
         return (f"beta = {beta:.8g} lies beyond the ESS-limited temperature {lim:.8g} (pool ESS {e_true:.6g}, target {target:.6g}"
                 f"{', volume-variation mode' if dynamic else ''})")
     return None
+
+
+def coherence(st, w, beta_prev, target, tol, dynamic):
+    """the objects the run itself uses (not a snapshot): returned weights, recorded logz / ess belong to the recorded beta of the
+    history now stored, and an advance in ESS mode keeps the pool's ESS at the target"""
+    beta, logz, ess = st.get_current("beta"), st.get_current("logz"), st.get_current("ess")
+    wt, lz = pool_weights(st, beta)
+    w = np.asarray(w, dtype=float)
+    if len(w) != len(wt) or np.abs(w - wt).max() > 1e-9 * max(1.0, wt.max()) + 1e-12:
+        return (f"the weights returned by the sampler's own Reweighter are not the normalised weights of the stored pool at the recorded "
+                f"beta = {beta:.8g} (max deviation {np.abs(w - wt).max() if len(w) == len(wt) else float('nan'):.3g})")
+    if not np.isclose(logz, lz, rtol=1e-9, atol=1e-9):
+        return f"recorded logz = {logz!r} but the stored pool's log-evidence at the recorded beta = {beta:.8g} is {lz!r}"
+    if not np.isclose(ess, ess_of(wt), rtol=1e-6):
+        return f"recorded ess = {ess!r} but the stored pool's ESS at the recorded beta = {beta:.8g} is {ess_of(wt)!r}"
+    if not dynamic and beta > beta_prev and ess_of(wt) < target * (1 - tol) - 1e-9:
+        return f"advanced to beta = {beta:.8g} where the stored pool's ESS is {ess_of(wt):.6g} < target {target:.6g}"
+    return None
+
+
+def dtype_cases(seed):
+    """log-likelihood histories stored with a non-float64 dtype (a vectorised likelihood may return integer or float32 arrays; the
+    library stores what it is given): the contract is the same, evaluated on the stored values"""
+    rng = np.random.RandomState(seed + 41)
+    for d, n_part, ratio in ((1, 32, 1.0), (2, 64, 2.0), (3, 16, 3.0)):
+        for path in ([0.0, 0.0], [0.0, 0.0, 0.1, 0.35], [0.0, 0.3, 0.8]):
+            for ldtype in (np.int64, np.int32):
+                batches = []
+                for t, b in enumerate(path):
+                    u = rng.uniform(0.05, 0.95, (n_part, d))
+                    logl = np.round(-rng.gamma(2.0, 3.0 / (1 + 2 * b), n_part)).astype(ldtype)
+                    lz = 0.0
+                    if batches:
+                        lz = pool_weights(fill(d, batches, batches[-1][0], t), b)[1]
+                    batches.append((b, lz, u, logl))
+                yield dict(d=d, n_part=n_part, ratio=ratio, path=path, logl_dtype=np.dtype(ldtype).name), batches, ldtype
+
+
+def refill_cases(seed):
+    """one StateManager + Reweighter pair serves a history, then the state is refilled (update_from_dict) with a different history of
+    at least the same length: the next run() depends only on what is stored now"""
+    rng = np.random.RandomState(seed + 43)
+    for d, n_part, ratio, dyn in ((1, 32, 1.0, None), (2, 32, 2.0, None), (2, 48, 1.0, 0.5)):
+        for n_a, n_b in ((3, 3), (3, 5), (4, 4)):
+            pa = list(np.r_[0.0, np.sort(rng.uniform(0, 0.6, n_a - 1))])
+            pb = list(np.r_[0.0, np.sort(rng.uniform(0, 0.6, n_b - 1))])
+            a = synthetic(rng, d, n_part, n_a, 4.0, 0.0, pa)
+            b = synthetic(rng, d, n_part, n_b, 25.0, -3.0, pb)
+            yield dict(d=d, n_part=n_part, ratio=ratio, volume_variation=dyn, first_path=pa, second_path=pb), a, b
 
 
 def synthetic(rng, d, n_part, n_iter, scale, offset, beta_path):
@@ -194,6 +243,31 @@ def main():
             if r:
                 print(json.dumps({"reproduced": True, "tried": tried, "detail": r, "input": dict(what, volume_variation=dyn)}))
                 return
+    for what, batches, ldtype in dtype_cases(seed):
+        for dyn in (None, 0.5):
+            st = fill(what["d"], batches, what["path"][-1], len(what["path"]), ldtype=ldtype)
+            rw = Reweighter(st, None, n_particles=what["n_part"], ess_ratio=what["ratio"], volume_variation=dyn)
+            tried += 1
+            r = check_step(st, rw, what["path"][-1], dyn is not None, what)
+            if r:
+                print(json.dumps({"reproduced": True, "tried": tried, "detail": f"log-likelihoods stored as {what['logl_dtype']}: {r}",
+                                  "input": dict(what, volume_variation=dyn)}))
+                return
+    for what, a, b in refill_cases(seed):
+        st = fill(what["d"], a, what["first_path"][-1], len(a))
+        rw = Reweighter(st, None, n_particles=what["n_part"], ess_ratio=what["ratio"], volume_variation=what["volume_variation"])
+        tried += 1
+        r = check_step(st, rw, what["first_path"][-1], what["volume_variation"] is not None, what)
+        if not r:
+            st.commit_current_to_history() if False else None
+            other = fill(what["d"], b, what["second_path"][-1], len(b))
+            st.update_from_dict(other.to_dict())
+            r = check_step(st, rw, what["second_path"][-1], what["volume_variation"] is not None, what)
+            if r:
+                r = "after the state was refilled with another history (update_from_dict): " + r
+        if r:
+            print(json.dumps({"reproduced": True, "tried": tried, "detail": r, "input": what}))
+            return
     # whole schedules under an ideal (exact) mutation kernel on a sharply peaked problem: the prior density of l = logL is
     # proportional to exp(-l) on [-L, 0], so the tempered law p_beta(l) ~ exp(-(1-beta) l) is sampled exactly; the library's own
     # Reweighter picks every temperature.  The schedule creeps into the last BETA_TOLERANCE below 1 with ESS(1) below target.
@@ -236,7 +310,12 @@ def main():
                 r = check_step(snap, rw2, bp if hl else 0.0, self.volume_variation is not None, "seeded run", runner=lambda: orig(rw2)) if not found else None
                 if r:
                     found.append((self.state.get_current("iter"), r))
-                return orig(self)
+                res = orig(self)
+                if not found and hl:
+                    r = coherence(self.state, res, bp, self.ess_ratio * self.n_particles, self.ESS_TOLERANCE, self.volume_variation is not None)
+                    if r:
+                        found.append((self.state.get_current("iter"), r))
+                return res
             Reweighter.run = audited
             from tempest.steps.resample import Resampler as _RS
             from tempest.steps.train import Trainer as _TR
